@@ -12,6 +12,7 @@ From ClapModel Require Import Base.Bytes Complete.AotTree Complete.TextTree Comp
   Complete.BashProofs Complete.BuildTexts Complete.BuildLinked Complete.BuildSkeleton.
 From ClapModel Require Import Complete.FishModel Complete.FishProofs Complete.FishBuildProofs.
 From ClapModel Require Import Complete.ZshModel Complete.ZshProofs Complete.ZshBuildProofs.
+From ClapModel Require Complete.ZshBuildConflicts.
 From ClapModel Require Complete.BashUser Complete.PathTable Complete.ElvishModel Complete.ElvishProofs Complete.PowershellModel
   Complete.PowershellProofs Complete.NushellModel Complete.NushellProofs.
 From Coq Require Import String Lia.
@@ -79,12 +80,12 @@ Definition nushell_mentions (c : cmd) (d : cdesc) (bin : bytes) (ns : list bytes
     ok st /\ In (NushellProofs.NFx (st ++ NushellProofs.type_suffix a (bin ++ join_with [32] ns))) blk.
 (** zsh: the [_arguments] block that follows the arm label of the last word of the path (the root: the first block) has the
     spec line of the spelling -- the option form when the argument takes a value, the flag form otherwise *)
-Definition zsh_mentions bl (c : cmd) (d : cdesc) (bin : bytes) (ws : list bytes) (a : arg)
+Definition zsh_mentions (c : cmd) (d : cdesc) (bin : bytes) (ws : list bytes) (a : arg)
            (line : cmd -> option cmd -> arg * adesc -> list zpiece) : Prop :=
   exists s n' nd g ad,
-    generate_zsh bl c d bin = Some s /\
-    sublist (zrender ((if is_nil ws then [] else [Zx ([40] ++ last ws [] ++ [41])] ++ znl) ++ args_block bl n' nd g)) s /\
-    sublist (line n' g (a, ad)) (args_block bl n' nd g).
+    generate_zsh c d bin = Some s /\
+    sublist (zrender ((if is_nil ws then [] else [Zx ([40] ++ last ws [] ++ [41])] ++ znl) ++ args_block n' nd g)) s /\
+    sublist (line n' g (a, ad)) (args_block n' nd g).
 
 (** ---- shell by shell, at a node of the built tree ---- *)
 Section Built.
@@ -181,42 +182,44 @@ Proof.
   destruct Hin as [->|Hin]; [discriminate|exact (IH Ht Hin)].
 Qed.
 
-Lemma mangle_safe_zsh_ok c bin b : nb c = true -> build (set_bin_name c bin) = Some b -> mangle_safe b bin -> zsh_ok b bin.
+Lemma mangle_safe_zsh_ok c bin b :
+  nb c = true -> build (set_bin_name c bin) = Some b -> mangle_safe b bin -> cres b -> zsh_ok b bin.
 Proof.
-  intros Hnb Hb Hm. destruct (build_linked c bin b Hnb (ms_root_ne _ _ Hm) Hb) as [H1 H2].
-  constructor; [exact H1|exact H2| |].
+  intros Hnb Hb Hm [Hc0 Hcr]. destruct (build_linked c bin b Hnb (ms_root_ne _ _ Hm) Hb) as [H1 H2].
+  constructor; [exact H1|exact H2| | |exact Hc0|exact Hcr].
   - intros n Hn. apply dd_safe_no_blank. exact (ms_names _ _ Hm n Hn).
   - apply siblings_ok_names. exact (ms_siblings _ _ Hm).
 Qed.
 
-Definition zsh_short_line bl (a : arg) (s : bytes) (n : cmd) (g : option cmd) (p : arg * adesc) : list zpiece :=
-  if a_takes_values a then opt_short_line bl n g p s else zflag_line bl n g p [45] s.
-Definition zsh_long_line bl (a : arg) (l : bytes) (n : cmd) (g : option cmd) (p : arg * adesc) : list zpiece :=
-  if a_takes_values a then opt_long_line bl n g p l else zflag_line bl n g p [45; 45] l.
+Definition zsh_short_line (a : arg) (s : bytes) (n : cmd) (g : option cmd) (p : arg * adesc) : list zpiece :=
+  if a_takes_values a then opt_short_line n g p s else zflag_line n g p [45] s.
+Definition zsh_long_line (a : arg) (l : bytes) (n : cmd) (g : option cmd) (p : arg * adesc) : list zpiece :=
+  if a_takes_values a then opt_long_line n g p l else zflag_line n g p [45; 45] l.
 
 Lemma reach_nil_inv c ns n : reach c [] ns n -> n = c /\ ns = [].
 Proof. intros H. inversion H; subst. split; reflexivity. Qed.
 
 Section BuiltZsh.
-  Variables (bl : cmd -> arg -> list bytes) (c : cmd) (bin : bytes) (b : cmd).
+  Variables (c : cmd) (bin : bytes) (b : cmd).
   Hypothesis Hnb : nb c = true.
   Hypothesis Hb : build (set_bin_name c bin) = Some b.
   Hypothesis Hm : mangle_safe b bin.
+  Hypothesis Hcf : cres b.
 
   (** the block of the path is in the file *)
   Lemma zsh_block d ws ns n' : reach b ws ns n' -> exists s nd g,
-    generate_zsh bl c d bin = Some s /\
-    sublist (zrender ((if is_nil ws then [] else [Zx ([40] ++ last ws [] ++ [41])] ++ znl) ++ args_block bl n' nd g)) s.
+    generate_zsh c d bin = Some s /\
+    sublist (zrender ((if is_nil ws then [] else [Zx ([40] ++ last ws [] ++ [41])] ++ znl) ++ args_block n' nd g)) s.
   Proof.
-    intros Hr. pose proof (mangle_safe_zsh_ok c bin b Hnb Hb Hm) as Hok.
-    rewrite (generate_zsh_is_built bl c d bin b Hb). set (db := dbuild (set_bin_name c bin) d).
+    intros Hr. pose proof (mangle_safe_zsh_ok c bin b Hnb Hb Hm Hcf) as Hok.
+    rewrite (generate_zsh_is_built c d bin b Hb). set (db := dbuild (set_bin_name c bin) d).
     destruct ws as [|w ws'].
     - destruct (reach_nil_inv _ _ _ Hr) as [En _]. rewrite En.
-      destruct (zsh_script_root bl b db bin Hok) as (s & Es & Hs).
+      destruct (zsh_script_root b db bin Hok) as (s & Es & Hs).
       exists s, db, None. split; [exact Es|]. cbn [is_nil app]. exact Hs.
     - assert (Hne : w :: ws' <> []) by discriminate.
       destruct (reach_dreach b (w :: ws') ns n' Hr Hne db) as (nd & par & Hd).
-      destruct (zsh_script_path bl b db bin (w :: ws') n' nd par Hok Hd) as (s & Es & Hs).
+      destruct (zsh_script_path b db bin (w :: ws') n' nd par Hok Hd) as (s & Es & Hs).
       exists s, nd, (Some par). split; [exact Es|]. cbn [is_nil]. rewrite <- app_assoc. exact Hs.
   Qed.
 
@@ -229,8 +232,8 @@ Section BuiltZsh.
 
   Lemma zsh_both d ws ns n' a :
     reach b ws ns n' -> In a (c_args n') -> a_is_positional a = false -> arg_has_primary a ->
-    (forall s, spelled_short a s -> zsh_mentions bl c d bin ws a (zsh_short_line bl a s)) /\
-    (forall l, spelled_long a l -> zsh_mentions bl c d bin ws a (zsh_long_line bl a l)).
+    (forall s, spelled_short a s -> zsh_mentions c d bin ws a (zsh_short_line a s)) /\
+    (forall l, spelled_long a l -> zsh_mentions c d bin ws a (zsh_long_line a l)).
   Proof.
     intros Hr Ha Hpos Hprim.
     destruct (zsh_block d ws ns n' Hr) as (scr & nd & g & Eg & Hblk).
@@ -244,51 +247,51 @@ Section BuiltZsh.
     - intros s Hs. destruct (spelled_short_listed a s Hprim Hs) as (s0 & shorts & E0 & Hs' & E & Hi).
       exists scr, n', nd, g, ad. split; [exact Eg|]. split; [exact Hblk|]. unfold zsh_short_line.
       destruct (a_takes_values a) eqn:Et.
-      + exact (proj1 (block_options bl n' nd g a ad Hbin Had (Hopt eq_refl)) shorts s E Hi).
-      + apply (block_flag_lines bl n' nd g a ad [45] s Hbin Had (Hflag eq_refl)).
+      + exact (proj1 (block_options n' nd g a ad Hbin Had (Hopt eq_refl)) shorts s E Hi).
+      + apply (block_flag_lines n' nd g a ad [45] s Hbin Had (Hflag eq_refl)).
         destruct (proj1 (flag_spellings_complete a) s0 E0) as [F1 F2].
         destruct Hs' as [->|Hs']; [exact F1|exact (F2 s Hs')].
     - intros l Hs. destruct (spelled_long_listed a l Hprim Hs) as (l0 & longs & E0 & Hs' & E & Hi).
       exists scr, n', nd, g, ad. split; [exact Eg|]. split; [exact Hblk|]. unfold zsh_long_line.
       destruct (a_takes_values a) eqn:Et.
-      + exact (proj2 (block_options bl n' nd g a ad Hbin Had (Hopt eq_refl)) longs l E Hi).
-      + apply (block_flag_lines bl n' nd g a ad [45; 45] l Hbin Had (Hflag eq_refl)).
+      + exact (proj2 (block_options n' nd g a ad Hbin Had (Hopt eq_refl)) longs l E Hi).
+      + apply (block_flag_lines n' nd g a ad [45; 45] l Hbin Had (Hflag eq_refl)).
         destruct (proj2 (flag_spellings_complete a) l0 E0) as [F1 F2].
         destruct Hs' as [->|Hs']; [exact F1|exact (F2 l Hs')].
   Qed.
 End BuiltZsh.
 
 (** ---- all six, on the user's tree ---- *)
-Record six_mention_short up bl (c : cmd) (t : ttree) (d : cdesc) (bin : bytes) (ws ns : list bytes) (a : arg) (s : bytes) : Prop := {
+Record six_mention_short up (c : cmd) (t : ttree) (d : cdesc) (bin : bytes) (ws ns : list bytes) (a : arg) (s : bytes) : Prop := {
   sm_bash : bash_mentions c bin ns ([45] ++ s);
-  sm_zsh : zsh_mentions bl c d bin ws a (zsh_short_line bl a s);
+  sm_zsh : zsh_mentions c d bin ws a (zsh_short_line a s);
   sm_fish : (List.length ws <= 2)%nat -> fish_mentions_word c d bin ws (short_word s);
   sm_powershell : powershell_mentions up c t bin ws (PowershellProofs.ps_short up s);
   sm_elvish : elvish_mentions c t bin ws (ElvishProofs.el_short s);
   sm_nushell : nushell_mentions c d bin ns a (NushellProofs.mentions_short s)
 }.
-Record six_mention_long up bl (c : cmd) (t : ttree) (d : cdesc) (bin : bytes) (ws ns : list bytes) (a : arg) (l : bytes) : Prop := {
+Record six_mention_long up (c : cmd) (t : ttree) (d : cdesc) (bin : bytes) (ws ns : list bytes) (a : arg) (l : bytes) : Prop := {
   lm_bash : bash_mentions c bin ns ([45; 45] ++ l);
-  lm_zsh : zsh_mentions bl c d bin ws a (zsh_long_line bl a l);
+  lm_zsh : zsh_mentions c d bin ws a (zsh_long_line a l);
   lm_fish : (List.length ws <= 2)%nat -> fish_mentions_word c d bin ws (long_word l);
   lm_powershell : powershell_mentions up c t bin ws (PowershellProofs.ps_long l);
   lm_elvish : elvish_mentions c t bin ws (ElvishProofs.el_long l);
   lm_nushell : nushell_mentions c d bin ns a (NushellProofs.mentions_long l)
 }.
 
-Theorem six_generators_mention_spellings up bl c t d bin b ws ns n a :
-  nb c = true -> build (set_bin_name c bin) = Some b -> mangle_safe b bin ->
+Theorem six_generators_mention_spellings up c t d bin b ws ns n a :
+  nb c = true -> build (set_bin_name c bin) = Some b -> mangle_safe b bin -> cres b ->
   reach c ws ns n -> In a (c_args n) -> a_is_positional a = false -> arg_has_primary a ->
-  (forall s, spelled_short a s -> six_mention_short up bl c t d bin ws ns a s) /\
-  (forall l, spelled_long a l -> six_mention_long up bl c t d bin ws ns a l).
+  (forall s, spelled_short a s -> six_mention_short up c t d bin ws ns a s) /\
+  (forall l, spelled_long a l -> six_mention_long up c t d bin ws ns a l).
 Proof.
-  intros Hnb Hb Hm Hr Ha Hpos Hprim.
+  intros Hnb Hb Hm Hcf Hr Ha Hpos Hprim.
   destruct (reach_extends c ws ns n Hr b (generate_extends c bin b Hb)) as (n' & Hr' & Hext).
   pose proof (proj1 (extends_node n n' Hext) a Ha) as Ha'.
   pose proof (elvish_both c bin b Hb Hm ws ns n' a Hr' Ha' Hpos Hprim t) as [E1 E2].
   pose proof (powershell_both c bin b Hb Hm ws ns n' a Hr' Ha' Hpos Hprim up t) as [P1 P2].
   pose proof (nushell_both c bin b Hnb Hb Hm ws ns n' a Hr' Ha' Hpos Hprim d) as [N1 N2].
-  pose proof (zsh_both bl c bin b Hnb Hb Hm d ws ns n' a Hr' Ha' Hpos Hprim) as [Z1 Z2].
+  pose proof (zsh_both c bin b Hnb Hb Hm Hcf d ws ns n' a Hr' Ha' Hpos Hprim) as [Z1 Z2].
   split.
   - intros s Hs. constructor; [exact (bash_short c bin b Hnb Hb Hm ws ns n' a Hr' Ha' Hpos Hprim s Hs)|exact (Z1 s Hs)|
       |exact (P1 s Hs)|exact (E1 s Hs)|exact (N1 s Hs)].
@@ -298,25 +301,39 @@ Proof.
     intros Hlen. exact (proj2 (fish_both c bin b Hb ws ns n' a Hr' Ha' Hpos Hprim d Hlen) l Hs).
 Qed.
 
-(** for hyphen-free subcommand names every hypothesis is on the user's tree ([BashUser.build_mangle_safe_plain]) *)
-Theorem six_generators_mention_spellings_plain up bl c t d bin ws ns n a :
-  nb c = true -> dd_safe bin = true -> bin <> [] -> siblings_ok c -> help_free false c = true ->
-  names_ok BashUser.bash_name c ->
-  reach c ws ns n -> In a (c_args n) -> a_is_positional a = false -> arg_has_primary a ->
-  (forall s, spelled_short a s -> six_mention_short up bl c t d bin ws ns a s) /\
-  (forall l, spelled_long a l -> six_mention_long up bl c t d bin ws ns a l).
+(** the conflicts of the built tree resolve when the user's tree is in the class of [ZshBuildConflicts] *)
+Lemma plain_cres c bin b :
+  nb c = true -> bin <> [] -> siblings_ok c -> help_free false c = true -> names_ok BashUser.bash_name c ->
+  ZshBuildConflicts.cdo_all c = true -> build (set_bin_name c bin) = Some b -> cres b.
 Proof.
-  intros Hnb Hs Hne Hsib Hhf Hn Hr Ha Hpos Hprim.
+  intros Hnb Hne Hsib Hhf Hn Hcd Hb.
+  assert (Hsp : nospace c).
+  { intros n Hd. apply dd_safe_no_blank. specialize (Hn n Hd). unfold BashUser.bash_name in Hn.
+    apply andb_true_iff in Hn. exact (proj1 Hn). }
+  pose proof (ZshBuildConflicts.build_zsh_ok_conflicts c bin b Hnb Hne Hsp Hsib Hhf Hcd Hb) as Hok.
+  exact (conj (zo_conflicts_root _ _ Hok) (zo_conflicts _ _ Hok)).
+Qed.
+
+(** for hyphen-free subcommand names every hypothesis is on the user's tree ([BashUser.build_mangle_safe_plain]) *)
+Theorem six_generators_mention_spellings_plain up c t d bin ws ns n a :
+  nb c = true -> dd_safe bin = true -> bin <> [] -> siblings_ok c -> help_free false c = true ->
+  names_ok BashUser.bash_name c -> ZshBuildConflicts.cdo_all c = true ->
+  reach c ws ns n -> In a (c_args n) -> a_is_positional a = false -> arg_has_primary a ->
+  (forall s, spelled_short a s -> six_mention_short up c t d bin ws ns a s) /\
+  (forall l, spelled_long a l -> six_mention_long up c t d bin ws ns a l).
+Proof.
+  intros Hnb Hs Hne Hsib Hhf Hn Hbl Hr Ha Hpos Hprim.
   destruct (build (set_bin_name c bin)) as [b|] eqn:Hb; [|exfalso; exact (build_total _ Hb)].
-  exact (six_generators_mention_spellings up bl c t d bin b ws ns n a Hnb Hb
-           (BashUser.build_mangle_safe_plain c bin b Hb Hs Hne Hsib Hhf Hn) Hr Ha Hpos Hprim).
+  exact (six_generators_mention_spellings up c t d bin b ws ns n a Hnb Hb
+           (BashUser.build_mangle_safe_plain c bin b Hb Hs Hne Hsib Hhf Hn)
+           (plain_cres c bin b Hnb Hne Hsib Hhf Hn Hbl Hb) Hr Ha Hpos Hprim).
 Qed.
 
 (** determinism: all six generators are functions of (command, texts, bin name) *)
-Theorem six_generators_deterministic up bl c1 c2 t1 t2 d1 d2 b1 b2 :
+Theorem six_generators_deterministic up c1 c2 t1 t2 d1 d2 b1 b2 :
   c1 = c2 -> t1 = t2 -> d1 = d2 -> b1 = b2 ->
   generate_bash c1 b1 = generate_bash c2 b2 /\
-  generate_zsh bl c1 d1 b1 = generate_zsh bl c2 d2 b2 /\
+  generate_zsh c1 d1 b1 = generate_zsh c2 d2 b2 /\
   generate_fish c1 d1 b1 = generate_fish c2 d2 b2 /\
   PowershellModel.generate_powershell up c1 t1 b1 = PowershellModel.generate_powershell up c2 t2 b2 /\
   ElvishModel.generate_elvish c1 t1 b1 = ElvishModel.generate_elvish c2 t2 b2 /\
@@ -336,63 +353,64 @@ Proof.
 Qed.
 
 (** the same with the six mentions spelled out *)
-Theorem six_generators_mention_spellings_conj up bl c t d bin b ws ns n a :
-  nb c = true -> build (set_bin_name c bin) = Some b -> mangle_safe b bin ->
+Theorem six_generators_mention_spellings_conj up c t d bin b ws ns n a :
+  nb c = true -> build (set_bin_name c bin) = Some b -> mangle_safe b bin -> cres b ->
   reach c ws ns n -> In a (c_args n) -> a_is_positional a = false -> arg_has_primary a ->
   (forall s, spelled_short a s ->
      bash_mentions c bin ns ([45] ++ s) /\
-     zsh_mentions bl c d bin ws a (zsh_short_line bl a s) /\
+     zsh_mentions c d bin ws a (zsh_short_line a s) /\
      ((List.length ws <= 2)%nat -> fish_mentions_word c d bin ws (short_word s)) /\
      powershell_mentions up c t bin ws (PowershellProofs.ps_short up s) /\
      elvish_mentions c t bin ws (ElvishProofs.el_short s) /\
      nushell_mentions c d bin ns a (NushellProofs.mentions_short s)) /\
   (forall l, spelled_long a l ->
      bash_mentions c bin ns ([45; 45] ++ l) /\
-     zsh_mentions bl c d bin ws a (zsh_long_line bl a l) /\
+     zsh_mentions c d bin ws a (zsh_long_line a l) /\
      ((List.length ws <= 2)%nat -> fish_mentions_word c d bin ws (long_word l)) /\
      powershell_mentions up c t bin ws (PowershellProofs.ps_long l) /\
      elvish_mentions c t bin ws (ElvishProofs.el_long l) /\
      nushell_mentions c d bin ns a (NushellProofs.mentions_long l)).
 Proof.
-  intros Hnb Hb Hm Hr Ha Hpos Hprim.
-  destruct (six_generators_mention_spellings up bl c t d bin b ws ns n a Hnb Hb Hm Hr Ha Hpos Hprim) as [H1 H2]. split.
+  intros Hnb Hb Hm Hcf Hr Ha Hpos Hprim.
+  destruct (six_generators_mention_spellings up c t d bin b ws ns n a Hnb Hb Hm Hcf Hr Ha Hpos Hprim) as [H1 H2]. split.
   - intros s Hs. destruct (H1 s Hs). repeat split; assumption.
   - intros l Hs. destruct (H2 l Hs). repeat split; assumption.
 Qed.
 
-Theorem six_generators_mention_spellings_plain_conj up bl c t d bin ws ns n a :
+Theorem six_generators_mention_spellings_plain_conj up c t d bin ws ns n a :
   nb c = true -> dd_safe bin = true -> bin <> [] -> siblings_ok c -> help_free false c = true ->
-  names_ok BashUser.bash_name c ->
+  names_ok BashUser.bash_name c -> ZshBuildConflicts.cdo_all c = true ->
   reach c ws ns n -> In a (c_args n) -> a_is_positional a = false -> arg_has_primary a ->
   (forall s, spelled_short a s ->
      bash_mentions c bin ns ([45] ++ s) /\
-     zsh_mentions bl c d bin ws a (zsh_short_line bl a s) /\
+     zsh_mentions c d bin ws a (zsh_short_line a s) /\
      ((List.length ws <= 2)%nat -> fish_mentions_word c d bin ws (short_word s)) /\
      powershell_mentions up c t bin ws (PowershellProofs.ps_short up s) /\
      elvish_mentions c t bin ws (ElvishProofs.el_short s) /\
      nushell_mentions c d bin ns a (NushellProofs.mentions_short s)) /\
   (forall l, spelled_long a l ->
      bash_mentions c bin ns ([45; 45] ++ l) /\
-     zsh_mentions bl c d bin ws a (zsh_long_line bl a l) /\
+     zsh_mentions c d bin ws a (zsh_long_line a l) /\
      ((List.length ws <= 2)%nat -> fish_mentions_word c d bin ws (long_word l)) /\
      powershell_mentions up c t bin ws (PowershellProofs.ps_long l) /\
      elvish_mentions c t bin ws (ElvishProofs.el_long l) /\
      nushell_mentions c d bin ns a (NushellProofs.mentions_long l)).
 Proof.
-  intros Hnb Hs Hne Hsib Hhf Hn Hr Ha Hpos Hprim.
+  intros Hnb Hs Hne Hsib Hhf Hn Hbl Hr Ha Hpos Hprim.
   destruct (build (set_bin_name c bin)) as [b|] eqn:Hb; [|exfalso; exact (build_total _ Hb)].
-  exact (six_generators_mention_spellings_conj up bl c t d bin b ws ns n a Hnb Hb
-           (BashUser.build_mangle_safe_plain c bin b Hb Hs Hne Hsib Hhf Hn) Hr Ha Hpos Hprim).
+  exact (six_generators_mention_spellings_conj up c t d bin b ws ns n a Hnb Hb
+           (BashUser.build_mangle_safe_plain c bin b Hb Hs Hne Hsib Hhf Hn)
+           (plain_cres c bin b Hnb Hne Hsib Hhf Hn Hbl Hb) Hr Ha Hpos Hprim).
 Qed.
 
-Theorem six_mentions_meaning up bl c t d bin ws ns a w word entry ok line :
+Theorem six_mentions_meaning up c t d bin ws ns a w word entry ok line :
   (bash_mentions c bin ns w <->
      exists b tb k, build (set_bin_name c bin) = Some b /\ bash_table b = Some tb /\ generate_bash c bin = Some (render tb) /\
                     lookup_case tb (fn_of (mangle bin) ns) = Some k /\ In w (k_opts k)) /\
-  (zsh_mentions bl c d bin ws a line <->
-     exists s n' nd g ad, generate_zsh bl c d bin = Some s /\
-       sublist (zrender ((if is_nil ws then [] else [Zx ([40] ++ last ws [] ++ [41])] ++ znl) ++ args_block bl n' nd g)) s /\
-       sublist (line n' g (a, ad)) (args_block bl n' nd g)) /\
+  (zsh_mentions c d bin ws a line <->
+     exists s n' nd g ad, generate_zsh c d bin = Some s /\
+       sublist (zrender ((if is_nil ws then [] else [Zx ([40] ++ last ws [] ++ [41])] ++ znl) ++ args_block n' nd g)) s /\
+       sublist (line n' g (a, ad)) (args_block n' nd g)) /\
   (fish_mentions_word c d bin ws word <->
      exists b n' lines basic fline,
        build (set_bin_name c bin) = Some b /\ generate_fish c d bin = fish_script b (dbuild (set_bin_name c bin) d) /\
@@ -414,9 +432,9 @@ Proof. repeat split; intros H; exact H. Qed.
 
 (** ---- subcommand words: names and visible aliases of the subcommands of the addressed command ---- *)
 (** zsh: the [_<bin>_commands] function of the addressed command is in the file and lists the word *)
-Definition zsh_lists_subcommand bl (c : cmd) (d : cdesc) (bin : bytes) (ns : list bytes) (w : bytes) : Prop :=
+Definition zsh_lists_subcommand (c : cmd) (d : cdesc) (bin : bytes) (ns : list bytes) (w : bytes) : Prop :=
   exists s nd n' about,
-    generate_zsh bl c d bin = Some s /\ bin_or_default n' = bin ++ join_with [32] ns /\
+    generate_zsh c d bin = Some s /\ bin_or_default n' = bin ++ join_with [32] ns /\
     sublist (zrender (commands_function (bin_or_default n') (subcommands_of n' nd))) s /\
     sublist (describe_entry about w) (subcommands_of n' nd).
 (** fish: a line starting with the path's condition (+ [-f] when the command has no positional) offers the word *)
@@ -433,17 +451,17 @@ Definition nushell_declares (c : cmd) (d : cdesc) (bin : bytes) (ns : list bytes
     NushellModel.generate_nushell c d bin = Some s /\ s = NushellProofs.nrender (pre ++ blk ++ post) /\
     In (NushellProofs.NFx (NushellProofs.extern_line (negb (is_nil ns)) (bin ++ join_with [32] ns))) blk.
 
-Theorem six_generators_mention_subcommands up bl c t d bin b ws ns n sc w :
-  nb c = true -> build (set_bin_name c bin) = Some b -> mangle_safe b bin ->
+Theorem six_generators_mention_subcommands up c t d bin b ws ns n sc w :
+  nb c = true -> build (set_bin_name c bin) = Some b -> mangle_safe b bin -> cres b ->
   reach c ws ns n -> In sc (c_subs n) -> In w (get_name_and_visible_aliases sc) ->
   bash_mentions c bin ns w /\
-  zsh_lists_subcommand bl c d bin ns w /\
+  zsh_lists_subcommand c d bin ns w /\
   ((List.length ws <= 2)%nat -> fish_offers_subcommand c d bin ws w) /\
   powershell_mentions up c t bin ws (PowershellProofs.ps_sub w) /\
   elvish_mentions c t bin ws (ElvishProofs.el_sub w) /\
   nushell_declares c d bin (ns ++ [c_name sc]).
 Proof.
-  intros Hnb Hb Hm Hr Hsc Hw. pose proof (ms_root_ne _ _ Hm) as Hne.
+  intros Hnb Hb Hm Hcf Hr Hsc Hw. pose proof (ms_root_ne _ _ Hm) as Hne.
   destruct (reach_extends c ws ns n Hr b (generate_extends c bin b Hb)) as (n' & Hr' & Hext).
   destruct (proj2 (extends_node n n' Hext) sc w Hsc Hw) as (sb & Hsb & Hwb & Hsext).
   assert (Enm : c_name sb = c_name sc) by (inversion Hsext; assumption).
@@ -454,10 +472,10 @@ Proof.
     destruct (H [] ws ns n' Hr') as (_ & k & Hk & Ho & _). exists b, tb, k. repeat split; try assumption.
     apply (proj2 (opts_tokens_spec n' (k_opts k) Ho w)). right; right; right. exists sb. split; [exact Hsb|exact Hwb].
   - (* zsh *)
-    pose proof (mangle_safe_zsh_ok c bin b Hnb Hb Hm) as Hok.
-    destruct (zsh_script_commands bl b (dbuild (set_bin_name c bin) d) bin n' Hok (reach_desc _ _ _ _ Hr')) as (s & nd & Es & Hs).
+    pose proof (mangle_safe_zsh_ok c bin b Hnb Hb Hm Hcf) as Hok.
+    destruct (zsh_script_commands b (dbuild (set_bin_name c bin) d) bin n' Hok (reach_desc _ _ _ _ Hr')) as (s & nd & Es & Hs).
     destruct (zipd_has cd0 (c_subs n') sb Hsb (cd_subs nd)) as [sd Hsd].
-    exists s, nd, n', (cd_about sd). split; [rewrite (generate_zsh_is_built bl c d bin b Hb); exact Es|].
+    exists s, nd, n', (cd_about sd). split; [rewrite (generate_zsh_is_built c d bin b Hb); exact Es|].
     split; [unfold bin_or_default; rewrite (reach_bin b ws ns n' Hr' bin Hbin Hl); reflexivity|]. split; [exact Hs|].
     exact (subcommands_of_entry n' nd sb sd w Hsd Hwb).
   - (* fish *)
@@ -486,10 +504,10 @@ Proof.
     exists s, blk, pre, post. split; [exact Hg|]. split; [exact Es|exact Hext'].
 Qed.
 
-Theorem subcommand_mentions_meaning bl c d bin ws ns w :
-  (zsh_lists_subcommand bl c d bin ns w <->
+Theorem subcommand_mentions_meaning c d bin ws ns w :
+  (zsh_lists_subcommand c d bin ns w <->
      exists s nd n' about,
-       generate_zsh bl c d bin = Some s /\ bin_or_default n' = bin ++ join_with [32] ns /\
+       generate_zsh c d bin = Some s /\ bin_or_default n' = bin ++ join_with [32] ns /\
        sublist (zrender (commands_function (bin_or_default n') (subcommands_of n' nd))) s /\
        sublist (describe_entry about w) (subcommands_of n' nd)) /\
   (fish_offers_subcommand c d bin ws w <->
